@@ -529,6 +529,64 @@ async def _scenario_async_empty_in(family: str, iterate: bool) -> dict[str, Any]
     return {"events": traces.uniform(events, EVD), "meta": f"AsyncUDPNetworkClient{'(iterator)' if iterate else ''} JSONSerializer {family}: an EMPTY datagram from the peer between two good ones"}
 
 
+async def _scenario_backlog(n: int) -> list[str]:
+    """Thousands of datagrams reach an AsyncUDPNetworkClient while nobody receives: every datagram the library has taken out of the
+    socket is delivered later, in order (what the kernel itself may drop under load never reaches the library and is not counted)."""
+    import socket
+
+    from easynetwork.clients.async_udp import AsyncUDPNetworkClient
+    from easynetwork.lowlevel.api_async.backend._asyncio.backend import AsyncIOBackend
+    from easynetwork.lowlevel.api_async.backend._asyncio.datagram.endpoint import DatagramEndpointProtocol
+    from easynetwork.protocol import DatagramProtocol
+    from easynetwork.serializers.line import StringLineSerializer
+
+    a, b = harness.loopback_udp_pair()
+    for s_ in (a, b):
+        s_.setsockopt(socket.SOL_SOCKET, socket.SO_RCVBUF, 8 << 20)
+        s_.setsockopt(socket.SOL_SOCKET, socket.SO_SNDBUF, 8 << 20)
+    backend = AsyncIOBackend()
+    taken: list[str] = []
+    orig = DatagramEndpointProtocol.datagram_received
+
+    def spy(self: Any, data: bytes, addr: Any) -> None:
+        taken.append(bytes(data).decode("ascii", "replace"))
+        orig(self, data, addr)
+
+    DatagramEndpointProtocol.datagram_received = spy  # type: ignore[method-assign]
+    problems: list[str] = []
+    try:
+        client = AsyncUDPNetworkClient(a, DatagramProtocol(StringLineSerializer()), backend=backend)
+        await client.wait_connected()
+        try:
+            for i in range(n):
+                b.send(b"%05d" % i)
+                if i % 50 == 49:
+                    await asyncio.sleep(0.001)  # the loop reads what has arrived; no task is receiving
+            await asyncio.sleep(0.05)
+            got: list[str] = []
+            while True:
+                try:
+                    with backend.timeout(0.3):
+                        got.append(await client.recv_packet())
+                except TimeoutError:
+                    break
+                except Exception as exc:  # noqa: BLE001
+                    problems.append(f"recv_packet raised {exc!r} after {len(got)} packets")
+                    break
+            if len(taken) < n // 2:
+                problems.append(f"harness: only {len(taken)} of {n} datagrams reached the library")
+            if got != taken:
+                k = next((i for i, (x, y) in enumerate(zip(got, taken)) if x != y), min(len(got), len(taken)))
+                problems.append(f"the library read {len(taken)} datagrams from the socket and delivered {len(got)}; first difference at #{k}")
+        finally:
+            await client.aclose()
+    finally:
+        DatagramEndpointProtocol.datagram_received = orig  # type: ignore[method-assign]
+        a.close()
+        b.close()
+    return problems
+
+
 def _fix_ids(t: dict[str, Any]) -> None:
     """Equal packets may occur twice in a scenario: attribute each delivery to the oldest matching packet not delivered yet."""
     for e in t["events"]:
@@ -577,6 +635,15 @@ def run(chk: Check) -> None:
             rec.append(asyncio.run(_scenario_async_empty_in(family, iterate)))
             nbig += 1
     chk.extra["maximum_size_datagrams"] = nbig
+    problems = asyncio.run(_scenario_backlog(3000 if quick else 20000))
+    chk.traces += 1
+    chk.distinct.add(("backlog",))
+    if problems:
+        chk.violation(
+            {"kind": "backlog", "target": "AsyncUDPNetworkClient", "what": "datagram_lost_in_the_library"},
+            f"AsyncUDPNetworkClient, datagrams piling up while nobody receives: {problems}",
+            {"kind": "backlog"},
+        )
     for t in rec:
         _fix_ids(t)
     slim = [{"events": t["events"]} for t in rec]
